@@ -330,6 +330,8 @@ def run(ctx):
         legacy_sessions(ctx, P, PT, ebb_serial, ebb_motion, exc)
         connect_sessions(ctx, P, PT, ebb3_serial, pyserial, exc)
         connect_ioerror(ctx, P, PT, ebb3_serial, pyserial, exc)
+        # ---- separate block: the SOURCE-REGENERATED legacy gates (translator/pyio2lean.py) ----
+        gen_gate_stream(ctx, ebb_serial, ebb_motion, pyserial)
     finally:
         pyserial.Serial, ebb3_serial.comports = saved
         lg.setLevel(lg_state[0])
@@ -1226,3 +1228,79 @@ def connect_ioerror(ctx, P, PT, ebb3_serial, pyserial, exc):
     if not contained:
         ctx.notes.append('connect()\'s try block does not list OSError/IOError: the OSError-fault scenarios are judged by the '
                          'oracle only (the model describes the exception classes the handshake contains)')
+
+
+# ----------------------------------------------------------------------------------------------
+# validation of the regenerated legacy gates (Gen.ebb_serial_min_version, queryVersion, query_nickname, write_nickname,
+# reboot, bootload, closePort and the two gated helpers of ebb_motion): scripted ports, release-only versions
+# ----------------------------------------------------------------------------------------------
+def gen_gate_stream(ctx, ebb_serial, ebb_motion, pyserial):
+    from . import legacygen as G
+    if ctx.driver is None:
+        return
+    rng = ctx.rng
+    feats = [('ebb_serial_min_version', lambda p: ebb_serial.min_version(p, '2.5.5'), ('2.5.5',)),
+             ('ebb_serial_min_version', lambda p: ebb_serial.min_version(p, '2.10'), ('2.10',)),
+             ('ebb_serial_min_version', lambda p: ebb_serial.min_version(p, 'abc'), ('abc',)),
+             ('ebb_serial_queryVersion', lambda p: ebb_serial.queryVersion(p), ()),
+             ('ebb_serial_query_nickname', lambda p: ebb_serial.query_nickname(p, True), (True,)),
+             ('ebb_serial_query_nickname', lambda p: ebb_serial.query_nickname(p, False), (False,)),
+             ('ebb_serial_write_nickname', lambda p: ebb_serial.write_nickname(p, 'East Wing'), ('East Wing',)),
+             ('ebb_serial_write_nickname', lambda p: ebb_serial.write_nickname(p, ''), ('',)),
+             ('ebb_serial_reboot', lambda p: ebb_serial.reboot(p), ()),
+             ('ebb_serial_bootload', lambda p: ebb_serial.bootload(p), ()),
+             ('ebb_serial_closePort', lambda p: ebb_serial.closePort(p), ()),
+             ('ebb_motion_queryVoltage', lambda p: ebb_motion.queryVoltage(p, False), (False,)),
+             ('ebb_motion_servo_timeout', lambda p: ebb_motion.servo_timeout(p, 60000, None, False), (60000, None, False)),
+             ('ebb_motion_servo_timeout', lambda p: ebb_motion.servo_timeout(p, -5, 0, True), (-5, 0, True))]
+    versions = ['2.5.4', '2.5.5', '2.5.6', '2.6.0', '2.5.10', '2.2.2', '2.2.3', '3.0.2', '2.10.0', '2.5.5.0', '2.6', '10.0.1']
+    timing = [lambda v: [V(v)], lambda v: [b'', V(v)], lambda v: [b'', b'', b'', V(v)], lambda v: [], lambda v: [RAISE, V(v)],
+              lambda v: [b'OK\r\n'], lambda v: [b'ebb firmware version ' + v.encode() + b'\r\n'], lambda v: [b'', RAISE, V(v)],
+              lambda v: [b'EBB Firmware Version \r\n'], lambda v: [b'Firmware Version ' + v.encode() + b' \r\n', b'OK\r\n']]
+    afters = [[b'Bob\r\n', b'OK\r\n'], [b'\r\n', b'OK\r\n'], [], [b'', b'Late\r\n', b'', b'OK\r\n'], [RAISE], [b'   \r\n'],
+              [b'OK\r\n'], [b'!Err: x\r\n'], [b'0394,0300\r\n', b'OK\r\n'], [b'0394,0249\r\n', b'OK\r\n'], [b'0394\r\n', b'OK\r\n'],
+              [b'0394,abc\r\n', b'OK\r\n'], [b'1, -7 \r\n', b'OK\r\n']]
+    excs = [pyserial.SerialException, OSError]
+    cases = []
+    for gname, call, args in feats:
+        for v in versions:
+            for ti, tf in enumerate(timing):
+                if ti >= 2 and v not in ('2.5.5', '2.6.0', '2.2.3'):
+                    continue
+                for aft in (afters if ti == 0 and v in ('2.5.5', '2.6.0', '2.2.3', '3.0.2') else afters[:1]):
+                    for writes in ([], ['x'], ['o', 'x']) if (ti == 0 and aft is afters[0]) else ([],):
+                        cases.append((gname, call, args, tf(v) + list(aft), writes, excs[len(cases) % 2], True))
+        cases.append((gname, call, args, [], [], excs[0], False))          # no port
+    for _ in range(ctx.n(300)):
+        gname, call, args = rng.choice(feats)
+        v = rng.choice(versions)
+        cases.append((gname, call, args, rng.choice(timing[:3])(v) + list(rng.choice(afters)), rng.choice([[], [], ['o', 'x'], ['x']]),
+                      rng.choice(excs), True))
+    lines, mine, inps = [], [], []
+    for gname, call, args, reads, writes, exc, with_port in cases:
+        sc = Script(reads, writes)
+        sc.exc = exc
+        port = FakePort(sc) if with_port else None
+        res, _ = G.result_of(lambda: call(port))
+        key = G.EXC_KEY.get(exc.__name__, 'serial')
+        # FakePort.write raises BEFORE recording the text; the regenerated port logs every write attempt, as the C07
+        # fake does: compare the successful writes, in order, plus the number of attempts
+        mine.append((res, [bytes(w) for w in sc.written], sc.nw, len(sc.trace)))
+        lines.append(G.line(G.reads_tok(reads, key), G.writes_tok(writes, key), '.', [G.call_tok(gname, (port,) + tuple(args))]))
+        inps.append({'function': gname, 'args': [repr(a) for a in args], 'reads': [x if x == RAISE else x.decode('latin-1') for x in reads],
+                     'writes': ''.join(writes), 'exception': exc.__name__, 'port': with_port})
+    answers = ctx.driver.batch(lines)
+    for (res, written, nw, nr), ans, inp, (_, _, _, _, writes, _, _) in zip(mine, answers, inps, cases):
+        parts = ans.split(' ')
+        ok = len(parts) == 3
+        if ok:
+            gw = [] if parts[1] == '.' else parts[1].split(';')
+            okw = [t for i, t in enumerate(gw) if not (i < len(writes) and writes[i] == 'x')]
+            ok = (parts[0] == res and okw == [enc_str(w.decode('latin-1')) for w in written] and len(gw) == nw
+                  and parts[2] == str(nr))
+        key = 'gen:same' if ok else 'gen:differs'
+        ctx.paths[key] = ctx.paths.get(key, 0) + 1
+        if not ok:
+            ctx.disagree('C15 legacy gate: regenerated function (translator/pyio2lean.py) vs implementation', inp,
+                         f'{res} written={written} attempts={nw} reads={nr}', ans)
+    ctx.notes.append(f'regenerated legacy gates (Gen.ebb_serial_*/ebb_motion_*): {len(cases)} calls compared with the implementation')
